@@ -186,7 +186,148 @@ func isCstr(g *gCmd, f string) bool {
 	return false
 }
 
+// validEncoding marshals the real command for a generated assignment (used to derive malformed inputs)
+func validEncoding(name, env string) []byte {
+	defer func() { recover() }()
+	c := newCmd(name)
+	setEnv(c, env)
+	b, err := c.Marshal()
+	if err != nil {
+		return nil
+	}
+	return b
+}
+
+func fixedWidthFields(g *gCmd) []string {
+	var out []string
+	for _, f := range g.Fields {
+		if typeBits(f.Type) > 0 {
+			out = append(out, f.Name)
+		}
+	}
+	return out
+}
+
+// C04: round trips and slot locality over every command reachable from the factories
+func genC04(r *Rng, tier string) []Case {
+	loadGenCmds()
+	loadFactories()
+	per := 12
+	if tier == "thorough" {
+		per = 400
+	}
+	var cs []Case
+	for _, name := range genOrder {
+		g := genCmds[name]
+		e0 := env0Of(name)
+		rr := r.Fork("c04." + name)
+		for k := 0; k < per; k++ {
+			env := genEnv(rr, g, true, k%3 == 1, k%4 == 0)
+			if env == "" {
+				continue
+			}
+			cs = append(cs, Case{Op: "smb.rt", MArgs: []string{name, e0, env}, SArgs: []string{name, e0, env}, Tag: "rt.consistent"})
+			if k%4 == 3 { // inconsistent assignments: tie only (the property is silent)
+				bad := genEnv(rr, g, false, false, false)
+				cs = append(cs, Case{Op: "smb.rt", MArgs: []string{name, e0, bad}, SArgs: []string{name, e0, bad}, Tag: "rt.unconstrained"})
+			}
+			if fw := fixedWidthFields(g); len(fw) > 0 && k%2 == 0 {
+				f := fw[rr.Intn(len(fw))]
+				cs = append(cs, Case{Op: "smb.slot", MArgs: []string{name, env, f}, SArgs: []string{name, env, f}, Tag: "slot"})
+			}
+		}
+	}
+	return cs
+}
+
+// C05: the emitted bytes against the MS-CIFS encoder, on values whose bytes are pairwise distinct
+func genC05(r *Rng, tier string) []Case {
+	loadGenCmds()
+	loadFactories()
+	per := 10
+	if tier == "thorough" {
+		per = 300
+	}
+	var cs []Case
+	for _, name := range genOrder {
+		g := genCmds[name]
+		rr := r.Fork("c05." + name)
+		for k := 0; k < per; k++ {
+			env := genEnv(rr, g, true, k%2 == 0, k%3 == 0)
+			if env == "" {
+				continue
+			}
+			tag := "enc.random"
+			if k%2 == 0 {
+				tag = "enc.distinct-bytes"
+			}
+			cs = append(cs, Case{Op: "smb.enc", MArgs: []string{name, env}, SArgs: []string{name, env}, Tag: tag})
+		}
+	}
+	return cs
+}
+
+var corruptionBytes = []byte{0x00, 0x01, 0x7f, 0x80, 0xfe, 0xff}
+
+// C07 (SMB part): every truncation and every single-byte boundary-value corruption of valid encodings
+func genC07Smb(r *Rng, tier string) []Case {
+	loadGenCmds()
+	loadFactories()
+	per := 2
+	if tier == "thorough" {
+		per = 25
+	}
+	var cs []Case
+	for _, name := range genOrder {
+		g := genCmds[name]
+		e0 := env0Of(name)
+		rr := r.Fork("c07." + name)
+		dec := func(b []byte, tag string) {
+			cs = append(cs, Case{Op: "smb.dec", MArgs: []string{name, e0, hx(b)}, SArgs: []string{name, e0, hx(b)}, Tag: tag})
+		}
+		for k := 0; k < per; k++ {
+			env := genEnv(rr, g, true, false, true)
+			if env == "" {
+				continue
+			}
+			b := validEncoding(name, env)
+			if b == nil {
+				continue
+			}
+			dec(b, "dec.valid")
+			for n := 0; n < len(b); n++ {
+				dec(b[:n], "dec.truncated")
+			}
+			for pos := 0; pos < len(b); pos++ {
+				for _, v := range corruptionBytes {
+					if b[pos] == v {
+						continue
+					}
+					m := append([]byte{}, b...)
+					m[pos] = v
+					dec(m, "dec.corrupt1")
+				}
+			}
+			for j := 0; j < 8; j++ { // splices
+				m := append([]byte{}, b...)
+				for t := 0; t < 1+rr.Intn(3) && len(m) > 0; t++ {
+					m[rr.Intn(len(m))] = corruptionBytes[rr.Intn(len(corruptionBytes))]
+				}
+				if rr.Bool() && len(m) > 2 {
+					m = m[:rr.Intn(len(m))]
+				}
+				dec(append(m, rr.Bytes(rr.Intn(4))...), "dec.splice")
+			}
+		}
+		dec(rr.Bytes(rr.Intn(40)), "dec.random")
+	}
+	return cs
+}
+
 func init() {
+	register(&Prop{ID: "C04", Ops: smbOps(), Gen: genC04})
+	register(&Prop{ID: "C05", Ops: smbOps(), Gen: genC05})
+	register(&Prop{ID: "C07", Ops: smbOps(), Gen: genC07Smb})
 	register(&Prop{ID: "SMBDEV", Ops: smbOps(), Gen: func(r *Rng, tier string) []Case {
 		loadGenCmds()
 		loadFactories()
